@@ -33,7 +33,11 @@ def check(ctx, rep):
         if isinstance(n, ast.If) and any(isinstance(s, ast.Expr) and '292' in norm(s) for s in n.body):
             found = True
             t = norm(n.test, 500)
-            ok = ("endswith('\\n')" in t) == ("endswith('\\r')" in t) and ("'\\n'" in t) == ("'\\r'" in t) and "'\\r\\n'" in t
+            if "\\n" not in t and "\\r" not in t:
+                rep.skip('NORM-9', 'parso/python/pep8.py', f.qual, 'if %s' % t,
+                         'the 292 condition does not test newline characters; whether it is exact is value reasoning (not decided)')
+                continue
+            ok = ("endswith('\\n')" in t) == ("endswith('\\r')" in t) and ("'\\n'" in t) == ("'\\r'" in t)
             rep.ob('NORM-9', 'parso/python/pep8.py', f.qual, 'if %s' % t, ok, '292 is decided for one newline style only')
     if not found:
         from ..model import AnalysisError
